@@ -115,7 +115,7 @@ def build_coq():
         cp = os.path.join(COQ, '_CoqProject')
         if not os.path.exists(mk) or os.path.getmtime(mk) < os.path.getmtime(cp):
             run(['coq_makefile', '-f', '_CoqProject', '-o', 'Makefile'], cwd=COQ, check=True)
-        rc, out = run(['timeout', '1500', 'make', '-j16'], cwd=COQ, timeout=1600)
+        rc, out = run(['timeout', '1500', 'make', '-k', '-j16'], cwd=COQ, timeout=1600)
         return rc == 0, out
 
 
@@ -213,16 +213,31 @@ def cZ(n):
 
 # ---------------------------------------------------------------- harness
 
+def harness_dir(ctx):
+    """the harness module replaces github.com/styrainc/regal by /repo; when VERIF_REPO points
+    elsewhere (scratch worktree for experiments / seeded changes) a private copy is used"""
+    if REPO == '/repo':
+        shutil.copy(os.path.join(REPO, 'go.sum'), os.path.join(HARNESS, 'go.sum'))
+        return HARNESS
+    d = os.path.join(ctx.tmp, 'harness_copy')
+    if not os.path.isdir(d):
+        shutil.copytree(HARNESS, d)
+        gm = open(os.path.join(d, 'go.mod')).read().replace('=> /repo', '=> ' + REPO)
+        open(os.path.join(d, 'go.mod'), 'w').write(gm)
+        shutil.copy(os.path.join(REPO, 'go.sum'), os.path.join(d, 'go.sum'))
+    return d
+
+
 def build_harness(ctx, name, tags=None, race=False):
-    shutil.copy(os.path.join(REPO, 'go.sum'), os.path.join(HARNESS, 'go.sum'))
-    out = os.path.join(ctx.tmp, 'h_' + name)
+    hd = harness_dir(ctx)
+    out = os.path.join(ctx.tmp, 'h_' + name + ('_race' if race else ''))
     cmd = [GO, 'build']
     if race:
         cmd.append('-race')
     if tags:
         cmd += ['-tags', tags]
     cmd += ['-o', out, './cmd/' + name]
-    rc, log = run(cmd, cwd=HARNESS, env=goenv(), timeout=900)
+    rc, log = run(cmd, cwd=hd, env=goenv(), timeout=900)
     if rc != 0:
         raise HarnessBuildError(log)
     return out
@@ -262,11 +277,18 @@ def go_test_overlay(ctx, pkg, overlay_files, run_pat, args=None, race=False, tim
 # ---------------------------------------------------------------- verdicts
 
 def load_known():
-    p = os.path.join(VERIF, 'known_findings.json')
+    """known_findings.json plus the per-property fragments under known_findings.d/ (both committed)"""
+    out = []
     try:
-        return json.load(open(p)).get('findings', [])
+        out += json.load(open(os.path.join(VERIF, 'known_findings.json'))).get('findings', [])
     except OSError:
-        return []
+        pass
+    d = os.path.join(VERIF, 'known_findings.d')
+    if os.path.isdir(d):
+        for f in sorted(os.listdir(d)):
+            if f.endswith('.json'):
+                out += json.load(open(os.path.join(d, f))).get('findings', [])
+    return out
 
 
 def violation(ctx, replay_obj, no_input=False, signature=None):
